@@ -620,6 +620,7 @@ type Contract struct {
 	Inline     bool
 	Opaque     bool
 	SkipSafe   map[string]bool
+	NoInline   bool
 }
 
 type Axiom struct {
@@ -668,7 +669,7 @@ var blockKeywords = map[string]bool{"ghostvar": true, "ghostfield": true, "immut
 var clauseKeywords = map[string]bool{
 	"always": true, "requires": true, "ensures": true, "modifies": true, "reads": true, "writes": true, "fills": true, "loop": true, "at": true, "panics_when": true,
 	"prop": true, "pure": true, "uses": true, "abstract": true, "counts": true, "trusted": true, "may_panic": true,
-	"induct": true, "trigger": true, "inline": true, "opaque": true, "nosafe": true,
+	"induct": true, "trigger": true, "inline": true, "opaque": true, "nosafe": true, "noinline": true,
 }
 
 // readContractFile parses the //@ lines of one file.
@@ -923,6 +924,9 @@ func readContractFile(path, pkgPath string) (*ContractFile, error) {
 			cur.Opaque = true
 		case "may_panic":
 			cur.MayPanic = true
+		case "noinline":
+			// callees without a contract are never inlined: they are unknown calls
+			cur.NoInline = true
 		case "nosafe":
 			for _, m := range strings.Fields(rest) {
 				cur.SkipSafe[m] = true
